@@ -124,6 +124,7 @@ def run(ctx):
     _x86_register_fields(ctx)
     _arm_reference(ctx)
     _rex_emission(ctx)
+    _transforms(ctx)
     arm_addressing_bits(ctx, "C08.R9")
 
 
@@ -297,6 +298,86 @@ def _rex_emission(ctx):
                     ctx.ob("C08.R8", "%s:%s.encode" % (rel, cls.name), "the REX prefix is emitted whenever any of W, R, X, B is set", whole or bits == set("wrxb"), construct="rex-all-bits:%s" % cls.name, node=i,
                            detail="test `%s` looks at %s" % (norm(i.test), "the whole low nibble" if whole else sorted(bits)))
     ctx.need(n >= 1, "conditional REX emission not found")
+
+
+# What the architecture manuals store in a field that ppci fills through a Transform of the operand value:
+#   AVR instruction set manual: ADIW/SBIW dd = (Rd - 24) / 2; MOVW dddd = Rd / 2; LDI/CPI/... dddd = Rd - 16
+#   MSP430 family user's guide, constant generators CG1/CG2: R2 As=10 -> 4, As=11 -> 8; R3 As=00 -> 0, 01 -> 1, 10 -> 2, 11 -> -1
+#   Xtensa ISA: L16UI/L16SI/S16I imm8 = offset / 2; L32I/S32I imm8 = offset / 4; L32I.N/S32I.N imm4 = offset / 4; SEXT t = bit - 7
+_CG = {-1: (3, 3), 0: (3, 0), 1: (3, 1), 2: (3, 2), 4: (2, 2), 8: (2, 3)}
+TRANSFORM_REFERENCE = {
+    ("ppci/arch/avr/instructions.py", "Patch0r"): {v: (v - 24) // 2 for v in (24, 26, 28, 30)},
+    ("ppci/arch/avr/instructions.py", "PatchDiv2"): {v: v // 2 for v in range(0, 32, 2)},
+    ("ppci/arch/avr/instructions.py", "PatchedBy16"): {v: v - 16 for v in range(16, 32)},
+    ("ppci/arch/msp430/instructions.py", "RegConstTransform"): {v: r for v, (r, a) in _CG.items()},
+    ("ppci/arch/msp430/instructions.py", "AsConstTransform"): {v: a for v, (r, a) in _CG.items()},
+    ("ppci/arch/xtensa/instructions.py", "Shift1"): {v: v // 2 for v in range(0, 512, 2)},
+    ("ppci/arch/xtensa/instructions.py", "Shift2"): {v: v // 4 for v in range(0, 1024, 4)},
+    ("ppci/arch/xtensa/instructions.py", "Add7Transform"): {v: v - 7 for v in range(7, 23)},
+}
+TRANSFORM_ELSEWHERE = {("ppci/arch/arm/arm_instructions.py", "ArmExpand"): "encode_imm32 is decided by C10.R8"}
+
+
+def _transforms(ctx):
+    from .. import minieval
+    ctx.rule("C08.R10", "operand value transforms: the field value a Transform computes from the printed operand is the one the architecture manual assigns (reference table in sa/rules/c08.py; forwards() evaluated by sa/minieval on every accepted operand value), and backwards() inverts it", floor=300)
+    found = 0
+    for mod in [m for r, m in sorted(ctx.project.modules.items()) if r.startswith("ppci/arch/")]:
+        classes = [c for c in mod.tree.body if isinstance(c, ast.ClassDef) and any(norm(b).split(".")[-1] == "Transform" for b in c.bases)]
+        if not classes:
+            continue
+        glob = {}
+        for st in mod.tree.body:
+            if isinstance(st, ast.Assign) and len(st.targets) == 1 and isinstance(st.targets[0], ast.Name):
+                try:
+                    glob[st.targets[0].id] = minieval.ev(st.value, glob)
+                except minieval.Undecidable:
+                    pass
+        funcs = {f.name: f for f in mod.tree.body if isinstance(f, ast.FunctionDef)}
+        for cls in classes:
+            key = (mod.rel, cls.name)
+            site = "%s:%s" % key
+            if key in TRANSFORM_ELSEWHERE:
+                ctx.saw("transforms", "%s (%s)" % (site, TRANSFORM_ELSEWHERE[key]))
+                continue
+            found += 1
+            ref = TRANSFORM_REFERENCE.get(key)
+            ctx.ob("C08.R10", site, "the transform has an entry in the reference table", ref is not None, construct="transform-known:" + cls.name)
+            if ref is None:
+                continue
+            env = dict(glob)
+            for st in cls.body:
+                if isinstance(st, ast.Assign) and len(st.targets) == 1 and isinstance(st.targets[0], ast.Name):
+                    try:
+                        v = minieval.ev(st.value, env)
+                    except minieval.Undecidable:
+                        continue
+                    env[st.targets[0].id] = v
+                    env["self." + st.targets[0].id] = v
+                    env[cls.name + "." + st.targets[0].id] = v
+            env["__funcs__"] = funcs
+            env["__globals__"] = dict(glob)
+            fw = [f for f in cls.body if isinstance(f, ast.FunctionDef) and f.name == "forwards"]
+            bw = [f for f in cls.body if isinstance(f, ast.FunctionDef) and f.name == "backwards"]
+            ctx.need(len(fw) == 1, "%s: forwards() not found" % site)
+            for v, want in sorted(ref.items()):
+                try:
+                    got = minieval.call(fw[0], [v], env)
+                    det = "forwards(%d) = %r" % (v, got)
+                except minieval.Rejected as e:
+                    got, det = None, "forwards(%d) rejects the operand (%s)" % (v, e)
+                except minieval.Undecidable as e:
+                    ctx.undecided("C08.R10", site, "forwards(%d): %s" % (v, e))
+                    continue
+                ctx.ob("C08.R10", site, "operand value %d is stored as %d" % (v, want), got == want, construct="transform:%s:%d" % (cls.name, v), node=fw[0], detail=det)
+                if bw and got == want:
+                    try:
+                        back = minieval.call(bw[0], [got], env)
+                    except minieval.Undecidable as e:
+                        ctx.undecided("C08.R10", site, "backwards(%d): %s" % (got, e))
+                        continue
+                    ctx.ob("C08.R10", site, "backwards(%d) gives the operand value %d back (the disassembler prints what was assembled)" % (got, v), back == v, construct="transform-back:%s:%d" % (cls.name, v), node=bw[0], detail="backwards(%d) = %r" % (got, back))
+    ctx.need(found >= 8, "Transform subclasses under ppci/arch: %d found, 8 confirmed by reading" % found)
 
 
 def arm_addressing_bits(ctx, rid):
